@@ -6,16 +6,26 @@
 //   generic = a user-defined probability-query-only struct (triple-loop branch)
 //
 // Protocol (one line per op, numbers as exact tokens):
-//   C05 upd <exact> S O | T_a (S*S, s-major) | Ob_a (S*O, s1-major) | R_a (S*S) | b (S)
-//        | dense <block> | sparse <block> | generic <block> | usereigen <block>
-//   C05 updc … same layout; dense = Model(UserModel) and sparse = SparseModel(that dense model) (converting constructors)
-//     block = partial(S) reward(1) { unnorm(S) norm(S) punnorm(S) pnorm(S) sosa(S*S) } for o = 0..O-1
+//   C05 upd <route> <exact> <sosa> S O | T_a (S*S, s-major) | Ob_a (S*O, s1-major) | R_a (S*S) | b (S)
+//        | dense <block> | sparse <block> | generic <block> | usereigen <block> | usersparse <block> | pob P(o|b,a) for o = 0..O-1
+//     route = tab  : dense/sparse built by the table constructors (sparse drops sub-threshold entries)
+//             conv : dense = Model(UserModel), sparse = SparseModel(that dense model)  (converting constructors)
+//             raw  : dense/sparse hold the supplied Eigen matrices as they are: NO_CHECK constructors (sparse matrices with explicit
+//                    zeros, left uncompressed), default constructor + Eigen-matrix setters, or the default-constructed model itself
+//     block = partial(S) reward(1) { unnorm(S) norm(S) punnorm(S) pnorm(S) [sosa(S*S) if <sosa>] } for o = 0..O-1
+//     pob   = SparseModel::getObservationProbability(b, o, a) of the sparse model of the line
+//   C05 traj <rep> S A O | T | Ob | b0 (S) | s0 n (a s1 o)*n | bel_t (S) for t = 1..n
+//     a trajectory simulated by the model's own sampleSOR, the belief maintained by updateBelief  (rep = dense | sparse | sparseraw)
+//   C05 tab <class> <route> S A O | T (A*S*S, a-major) | Ob (A*S*O, a-major)
+//        | getTransitionProbability (A*S*S) | getTransitionFunction(a)(s,s1) | getObservationProbability (A*S*O) | getObservationFunction(a)(s1,o)
+//   C05 accept <class> S A O | T | Ob | <1 = constructed, 0 = std::invalid_argument>      (class = dense | sparse, table constructors)
 //   C05 hist <rep> <exact> S A O | T (A*S*S, a-major) | Ob (A*S*O, a-major) | b0 (S) | n a1 o1 .. an on
-//        | { alpha_t(S) bel_t(S) } for t = 1..n
+//        | { alpha_t(S) bel_t(S) } for t = 1..n | k P(o_t | b_{t-1}, a_t) for t = 1..k   (k = n on a SparseModel: its own getObservationProbability(b,o,a); else 0)
 //   C05 inplace <fn> <rep> <exact> S O o | T_a | Ob_a | in (S) | out-of-place result (S) | result of the same call with bRet == &in (S)
 //     fn = unnorm | update | partial | punnorm | pnorm  (the five pointer overloads)
 //   C05 overload <component> <what>      (only emitted when two overloads of one helper disagree)
 #include "common/verif.hpp"
+#include <AIToolbox/Seeder.hpp>
 #include <AIToolbox/MDP/Model.hpp>
 #include <AIToolbox/MDP/SparseModel.hpp>
 #include <AIToolbox/POMDP/Model.hpp>
@@ -75,6 +85,55 @@ struct UserEigenModel : UserModel {
     const Eigen::MatrixXd & getObservationFunction(size_t a) const { return Om[a]; }
     const Eigen::MatrixXd & getRewardFunction() const { return Rm; }
 };
+// A user-defined model exposing column-major SPARSE Eigen matrices (the library's own sparse matrices are row-major):
+// the Eigen branch instantiated with yet another set of kernels (sparse inner vectors are columns here, `col(o)` is a
+// direct inner-vector view, `b^T * T` runs over columns).  Only non-zero entries are stored.
+struct UserSparseModel : UserModel {
+    using SpC = Eigen::SparseMatrix<double, Eigen::ColMajor>;
+    std::vector<SpC> Tm, Om;
+    SpC Rm;
+    explicit UserSparseModel(const Tables * tt) : UserModel{tt}, Tm(tt->A, SpC(tt->S, tt->S)), Om(tt->A, SpC(tt->S, tt->O)), Rm(tt->S, tt->A) {
+        Eigen::MatrixXd R = Eigen::MatrixXd::Zero(t->S, t->A);
+        for (size_t a = 0; a < t->A; ++a) {
+            for (size_t s1 = 0; s1 < t->S; ++s1) for (size_t s = 0; s < t->S; ++s) {
+                if (t->T[s][a][s1] != 0.0) Tm[a].insert(s, s1) = t->T[s][a][s1];
+                R(s, a) += t->R[s][a][s1] * t->T[s][a][s1];
+            }
+            for (size_t o = 0; o < t->O; ++o) for (size_t s = 0; s < t->S; ++s) if (t->Ob[s][a][o] != 0.0) Om[a].insert(s, o) = t->Ob[s][a][o];
+            Tm[a].makeCompressed(); Om[a].makeCompressed();
+        }
+        // (row-by-row accumulation in s1 order, like UserEigenModel / MDP::Model::setRewardFunction)
+        for (size_t a = 0; a < t->A; ++a) for (size_t s = 0; s < t->S; ++s) if (R(s, a) != 0.0) Rm.insert(s, a) = R(s, a);
+        Rm.makeCompressed();
+    }
+    const SpC & getTransitionFunction(size_t a) const { return Tm[a]; }
+    const SpC & getObservationFunction(size_t a) const { return Om[a]; }
+    const SpC & getRewardFunction() const { return Rm; }
+};
+// Mixed storage, which the IsModelEigen concept allows as well: dense transitions with sparse observations, and the reverse
+// (`sparseColumn.cwiseProduct(denseVector)`, `denseRow * sparse`, `sparse * diagonal` … — operator combinations the library's own models never produce).
+struct UserMixedA : UserModel {      // dense T (column-major), sparse O (column-major)
+    std::vector<Eigen::MatrixXd> Tm; std::vector<UserSparseModel::SpC> Om; Eigen::MatrixXd Rm;
+    explicit UserMixedA(const Tables * tt) : UserModel{tt} {
+        UserEigenModel d(tt); UserSparseModel sp(tt);
+        Tm = d.Tm; Om = sp.Om; Rm = d.Rm;
+    }
+    const Eigen::MatrixXd & getTransitionFunction(size_t a) const { return Tm[a]; }
+    const UserSparseModel::SpC & getObservationFunction(size_t a) const { return Om[a]; }
+    const Eigen::MatrixXd & getRewardFunction() const { return Rm; }
+};
+struct UserMixedB : UserModel {      // sparse T (column-major), dense O (column-major)
+    std::vector<UserSparseModel::SpC> Tm; std::vector<Eigen::MatrixXd> Om; Eigen::MatrixXd Rm;
+    explicit UserMixedB(const Tables * tt) : UserModel{tt} {
+        UserEigenModel d(tt); UserSparseModel sp(tt);
+        Tm = sp.Tm; Om = d.Om; Rm = d.Rm;
+    }
+    const UserSparseModel::SpC & getTransitionFunction(size_t a) const { return Tm[a]; }
+    const Eigen::MatrixXd & getObservationFunction(size_t a) const { return Om[a]; }
+    const Eigen::MatrixXd & getRewardFunction() const { return Rm; }
+};
+static_assert(PO::IsModelEigen<UserMixedA> && PO::IsModelEigen<UserMixedB>, "mixed-storage user models must take the Eigen branch");
+static_assert(PO::IsModelEigen<UserSparseModel>, "UserSparseModel must take the Eigen branch");
 static_assert(PO::IsModelEigen<UserEigenModel>, "UserEigenModel must take the Eigen branch");
 static_assert(PO::IsModel<UserModel>, "UserModel must satisfy POMDP::IsModel");
 static_assert(!PO::IsModelEigen<UserModel>, "UserModel must take the generic branch");
@@ -136,7 +195,7 @@ static std::vector<double> tinyRow(Rng & rng, size_t n) {
     return r;
 }
 
-enum Stream { ST_DYADIC, ST_UGLY, ST_TINY };
+enum Stream { ST_DYADIC, ST_UGLY, ST_TINY, ST_NEAR };
 
 static Tables makeTables(Rng & rng, size_t S, size_t A, size_t O, Stream st) {
     Tables t; t.S = S; t.A = A; t.O = O;
@@ -147,14 +206,14 @@ static Tables makeTables(Rng & rng, size_t S, size_t A, size_t O, Stream st) {
     t.discount = discs[rng.below(4)];
     // per action flavour: 0 mixed rows, 1 deterministic transitions, 2 fully dense, 3 an observation nobody emits
     for (size_t a = 0; a < A; ++a) {
-        int flavour = (int)rng.below(5);
+        int flavour = (int)rng.below(6);   // 5: deterministic transitions AND observations
         size_t deadObs = rng.below(O);
         for (size_t s = 0; s < S; ++s) {
-            RowKind k = flavour == 1 ? ROW_ONEHOT : flavour == 2 ? ROW_DENSE : ROW_ANY;
+            RowKind k = (flavour == 1 || flavour == 5) ? ROW_ONEHOT : flavour == 2 ? ROW_DENSE : ROW_ANY;
             if (st == ST_UGLY && rng.coin(2, 3)) t.T[s][a] = uglyRow(rng, S);
             else if (st == ST_TINY && rng.coin(1, 3)) t.T[s][a] = tinyRow(rng, S);
             else t.T[s][a] = dyadicRow(rng, S, 6, k);
-            RowKind ko = flavour == 2 ? ROW_DENSE : ROW_ANY;
+            RowKind ko = flavour == 2 ? ROW_DENSE : flavour == 5 ? ROW_ONEHOT : ROW_ANY;
             if (st == ST_UGLY && rng.coin(2, 3)) t.Ob[s][a] = uglyRow(rng, O);
             else if (st == ST_TINY && rng.coin(1, 3)) t.Ob[s][a] = tinyRow(rng, O);
             else t.Ob[s][a] = dyadicRow(rng, O, 6, ko);
@@ -169,9 +228,69 @@ static Tables makeTables(Rng & rng, size_t S, size_t A, size_t O, Stream st) {
     return t;
 }
 
+// the tables of a default-constructed model: identity transitions, observation 0 certain, no rewards
+static Tables defaultTables(size_t S, size_t A, size_t O) {
+    Tables t; t.S = S; t.A = A; t.O = O; t.discount = 0.5;
+    t.T.assign(S, std::vector<std::vector<double>>(A, std::vector<double>(S, 0.0)));
+    t.R = t.T;
+    t.Ob.assign(S, std::vector<std::vector<double>>(A, std::vector<double>(O, 0.0)));
+    for (size_t s = 0; s < S; ++s) for (size_t a = 0; a < A; ++a) { t.T[s][a][s] = 1.0; t.Ob[s][a][0] = 1.0; }
+    return t;
+}
+
+// near-valid tables: push a few rows of a dyadic model to the edges of what the constructors accept
+// (row sums 1 +- d around the tolerance 1e-6, slightly negative entries, entries at/below the sparse storage
+// threshold, MANY tiny successors whose total mass is around the tolerance).  All values stay dyadic.
+static void perturb(Rng & rng, Tables & t) {
+    const int n = 1 + (int)rng.below(3);
+    for (int k = 0; k < n; ++k) {
+        const bool onT = rng.coin();
+        const size_t s = rng.below(t.S), a = rng.below(t.A);
+        auto & row = onT ? t.T[s][a] : t.Ob[s][a];
+        size_t big = 0; for (size_t j = 1; j < row.size(); ++j) if (row[j] > row[big]) big = j;
+        const int kind = (int)rng.below(7);
+        static const int up[] = {21, 20, 19, 18};
+        std::printf("#stat perturb_kind_%d 1\n", kind);
+        if (kind == 0) row[big] += std::ldexp(1.0, -up[rng.below(4)]);
+        else if (kind == 1) row[big] -= std::ldexp(1.0, -up[rng.below(4)]);
+        else if (kind == 2 && row.size() > 1) {
+            static const double ds[] = {0x1p-30, 0x1p-21, 0.25};
+            const double d = ds[rng.below(3)];
+            const size_t j = (big + 1 + rng.below(row.size() - 1)) % row.size();
+            row[big] += row[j] + d; row[j] = -d;
+        } else if (kind == 3 && row.size() > 1) {
+            static const int es[] = {26, 24, 21};
+            const double e = std::ldexp(1.0, -es[rng.below(3)]);
+            size_t cnt = 0, want = 1 + rng.below(row.size() - 1);
+            for (size_t j = 0; j < row.size() && cnt < want; ++j) if (j != big && row[j] == 0.0) { row[j] = e; row[big] -= e; ++cnt; }
+            std::printf("#stat tiny_successors_%s 1\n", cnt == 0 ? "0" : cnt < 3 ? "1-2" : cnt < 17 ? "3-16" : cnt < 68 ? "17-67" : "68+");
+        } else if (kind == 4 && row.size() > 1) {
+            const size_t j = (big + 1 + rng.below(row.size() - 1)) % row.size();
+            row[big] += row[j] - 0x1p-20; row[j] = 0x1p-20;
+        }
+        else if (kind == 6 && row.size() > 1) {
+            // an entry just ABOVE the storage threshold (2^-19 = 1.9e-6 > 1e-6: every container must keep it) in a row summing to
+            // 1 + 2^-20: a container that dropped it would still see a row within the tolerance (1 + 2^-20 - 2^-19 = 1 - 2^-20)
+            const size_t j = (big + 1 + rng.below(row.size() - 1)) % row.size();
+            row[big] += row[j] - 0x1p-19 + 0x1p-20; row[j] = 0x1p-19;
+        }
+        // kind 5: leave the row alone
+    }
+}
+
 static AI::Vector makeBelief(Rng & rng, size_t S, Stream st, int shape) {
     AI::Vector b(S); b.setZero();
     if (shape == 0 || S == 1) { b[rng.below(S)] = 1.0; return b; }                     // corner
+    if (shape == 3) {
+        // a belief with entries far below every tolerance of the library (2^-21 < 1e-6, 2^-30): they still count
+        std::vector<double> r = dyadicRow(rng, S, 8, ROW_SPARSE);
+        size_t big = 0; for (size_t j = 1; j < S; ++j) if (r[j] > r[big]) big = j;
+        size_t j = (big + 1 + rng.below(S - 1)) % S;
+        const double e = rng.coin() ? 0x1p-21 : 0x1p-30;
+        r[big] += r[j] - e; r[j] = e;
+        for (size_t s = 0; s < S; ++s) b[s] = r[s];
+        return b;
+    }
     std::vector<double> r;
     if (st == ST_UGLY) r = uglyRow(rng, S);
     else r = dyadicRow(rng, S, 8, shape == 1 ? ROW_SPARSE : ROW_DENSE);                // face / interior
@@ -196,42 +315,104 @@ static void overloadMismatch(const char * fn, const char * rep, const char * wha
 static void putVec(Line & l, const AI::Vector & v) { for (long i = 0; i < v.size(); ++i) l << (double)v[i]; }
 
 template <class M>
-static void emitBlock(Line & l, const M & m, const char * rep, const Tables & t, const AI::Vector & b, size_t a) {
+static void emitBlock(Line & l, const M & m, const char * rep, const Tables & t, const AI::Vector & b, size_t a, bool withSosa) {
     const size_t S = t.S, O = t.O;
     // predict step, both overloads
     AI::Vector partial = PO::updateBeliefPartial(m, b, a);
-    { AI::Vector p2(S); PO::updateBeliefPartial(m, b, a, &p2); if (!sameBits(partial, p2)) overloadMismatch("updateBeliefPartial", rep, "pointer_vs_value"); }
+    { AI::Vector p2 = AI::Vector::Constant(S, std::nan("")); PO::updateBeliefPartial(m, b, a, &p2); if (!sameBits(partial, p2)) overloadMismatch("updateBeliefPartial", rep, "pointer_vs_value"); }
     putVec(l, partial);
     l << PO::beliefExpectedReward(m, b, a);
-    auto sosa = PO::makeSOSA(m);
+    using SosaT = decltype(PO::makeSOSA(m));
+    std::unique_ptr<SosaT> sosa; if (withSosa) sosa.reset(new SosaT(PO::makeSOSA(m)));
     for (size_t o = 0; o < O; ++o) {
         AI::Vector un = PO::updateBeliefUnnormalized(m, b, a, o);
-        { AI::Vector x(S); PO::updateBeliefUnnormalized(m, b, a, o, &x); if (!sameBits(un, x)) overloadMismatch("updateBeliefUnnormalized", rep, "pointer_vs_value"); }
+        { AI::Vector x = AI::Vector::Constant(S, std::nan("")); PO::updateBeliefUnnormalized(m, b, a, o, &x); if (!sameBits(un, x)) overloadMismatch("updateBeliefUnnormalized", rep, "pointer_vs_value"); }
         AI::Vector no = PO::updateBelief(m, b, a, o);
-        { AI::Vector x(S); PO::updateBelief(m, b, a, o, &x); if (!sameBits(no, x)) overloadMismatch("updateBelief", rep, "pointer_vs_value"); }
+        { AI::Vector x = AI::Vector::Constant(S, std::nan("")); PO::updateBelief(m, b, a, o, &x); if (!sameBits(no, x)) overloadMismatch("updateBelief", rep, "pointer_vs_value"); }
         AI::Vector pun = PO::updateBeliefPartialUnnormalized(m, partial, a, o);
-        { AI::Vector x(S); PO::updateBeliefPartialUnnormalized(m, partial, a, o, &x); if (!sameBits(pun, x)) overloadMismatch("updateBeliefPartialUnnormalized", rep, "pointer_vs_value"); }
+        { AI::Vector x = AI::Vector::Constant(S, std::nan("")); PO::updateBeliefPartialUnnormalized(m, partial, a, o, &x); if (!sameBits(pun, x)) overloadMismatch("updateBeliefPartialUnnormalized", rep, "pointer_vs_value"); }
         AI::Vector pno = PO::updateBeliefPartialNormalized(m, partial, a, o);
-        { AI::Vector x(S); PO::updateBeliefPartialNormalized(m, partial, a, o, &x); if (!sameBits(pno, x)) overloadMismatch("updateBeliefPartialNormalized", rep, "pointer_vs_value"); }
+        { AI::Vector x = AI::Vector::Constant(S, std::nan("")); PO::updateBeliefPartialNormalized(m, partial, a, o, &x); if (!sameBits(pno, x)) overloadMismatch("updateBeliefPartialNormalized", rep, "pointer_vs_value"); }
         putVec(l, un); putVec(l, no); putVec(l, pun); putVec(l, pno);
-        for (size_t s = 0; s < S; ++s) for (size_t s1 = 0; s1 < S; ++s1) l << (double)sosa[a][o].coeff(s, s1);
+        if (withSosa) for (size_t s = 0; s < S; ++s) for (size_t s1 = 0; s1 < S; ++s1) l << (double)(*sosa)[a][o].coeff(s, s1);
     }
+}
+
+enum Route { RT_TABLE, RT_NOCHECK, RT_SETTERS, RT_DEFAULT };
+
+// Eigen forms of the tables.  The sparse matrices may carry explicit zeros and stay uncompressed (insert() without makeCompressed()).
+static AI::Matrix3D denseT(const Tables & t) {
+    AI::Matrix3D m(t.A, AI::Matrix2D(t.S, t.S));
+    for (size_t a = 0; a < t.A; ++a) for (size_t s = 0; s < t.S; ++s) for (size_t s1 = 0; s1 < t.S; ++s1) m[a](s, s1) = t.T[s][a][s1];
+    return m;
+}
+static AI::Matrix3D denseOb(const Tables & t) {
+    AI::Matrix3D m(t.A, AI::Matrix2D(t.S, t.O));
+    for (size_t a = 0; a < t.A; ++a) for (size_t s = 0; s < t.S; ++s) for (size_t o = 0; o < t.O; ++o) m[a](s, o) = t.Ob[s][a][o];
+    return m;
+}
+static AI::Matrix2D denseR(const Tables & t) {
+    AI::Matrix2D m(t.S, t.A); m.setZero();
+    for (size_t a = 0; a < t.A; ++a) for (size_t s = 0; s < t.S; ++s) for (size_t s1 = 0; s1 < t.S; ++s1) m(s, a) += t.R[s][a][s1] * t.T[s][a][s1];
+    return m;
+}
+static AI::SparseMatrix2D toSparse(const AI::Matrix2D & d, int zeros, bool compress) {
+    // zeros: 0 = none stored, 1 = every other zero stored explicitly, 2 = all zeros stored
+    AI::SparseMatrix2D m(d.rows(), d.cols());
+    size_t k = 0;
+    for (long i = 0; i < d.rows(); ++i) for (long j = 0; j < d.cols(); ++j) {
+        if (d(i, j) != 0.0) m.insert(i, j) = d(i, j);
+        else if (zeros == 2 || (zeros == 1 && (k++ % 2 == 0))) m.insert(i, j) = 0.0;
+    }
+    if (compress) m.makeCompressed();
+    return m;
+}
+static AI::SparseMatrix3D toSparse3(const AI::Matrix3D & d, int zeros, bool compress) {
+    AI::SparseMatrix3D m; for (auto & x : d) m.push_back(toSparse(x, zeros, compress)); return m;
 }
 
 struct Models {
     Tables t;
+    Route route = RT_TABLE;
     std::unique_ptr<DenseM> dense, denseFromUser;
     std::unique_ptr<SparseM> sparse, sparseFromDense;
     UserModel user;
     std::unique_ptr<UserEigenModel> userEigen;
-    explicit Models(Tables tt) : t(std::move(tt)) {
+    std::unique_ptr<UserSparseModel> userSparse;
+    std::unique_ptr<UserMixedA> userMixedA;
+    std::unique_ptr<UserMixedB> userMixedB;
+    int eigenVariant = 0;      // which user model fills the `usereigen` block: 0 dense column-major, 1 dense T + sparse O, 2 sparse T + dense O
+    explicit Models(Tables tt, Route rt = RT_TABLE, int zeros = 0, bool compress = true) : t(std::move(tt)), route(rt) {
+        if (route == RT_TABLE) {
         dense.reset(new DenseM(t.O, t.Ob, t.S, t.A, t.T, t.R, t.discount));
         // the sparse setters validate what they actually store: a table whose dropped sub-threshold entries push a row
         // outside the tolerance is (legitimately, property C06) rejected — such a case has no sparse path to compare
         try { sparse.reset(new SparseM(t.O, t.Ob, t.S, t.A, t.T, t.R, t.discount)); }
         catch (const std::invalid_argument &) { std::printf("#stat sparse_ctor_rejected 1\n"); throw SparseRejected(); }
+        } else if (route == RT_NOCHECK) {
+            dense.reset(new DenseM(AI::NO_CHECK, t.O, denseOb(t), AI::NO_CHECK, t.S, t.A, denseT(t), denseR(t), t.discount));
+            sparse.reset(new SparseM(AI::NO_CHECK, t.O, toSparse3(denseOb(t), zeros, compress), AI::NO_CHECK, t.S, t.A,
+                                     toSparse3(denseT(t), zeros, compress), toSparse(denseR(t), zeros, compress), t.discount));
+            std::printf("#stat route_nocheck 1\n#stat sparse_explicit_zeros_%d 1\n#stat sparse_%s 1\n", zeros, compress ? "compressed" : "uncompressed");
+        } else if (route == RT_SETTERS) {
+            dense.reset(new DenseM(t.O, t.S, t.A, t.discount));
+            dense->setTransitionFunction(denseT(t)); dense->setRewardFunction(denseR(t)); dense->setObservationFunction(denseOb(t));
+            sparse.reset(new SparseM(t.O, t.S, t.A, t.discount));
+            sparse->setTransitionFunction(toSparse3(denseT(t), zeros, compress)); sparse->setRewardFunction(toSparse(denseR(t), zeros, compress));
+            sparse->setObservationFunction(toSparse3(denseOb(t), zeros, compress));
+            std::printf("#stat route_setters 1\n#stat sparse_explicit_zeros_%d 1\n#stat sparse_%s 1\n", zeros, compress ? "compressed" : "uncompressed");
+        } else {
+            // the tables in `t` must be those of a default-constructed model (identity transitions, observation 0 certain)
+            dense.reset(new DenseM(t.O, t.S, t.A, t.discount));
+            sparse.reset(new SparseM(t.O, t.S, t.A, t.discount));
+            std::printf("#stat route_default 1\n");
+        }
         user.t = &t;
         userEigen.reset(new UserEigenModel(&t));
+        userSparse.reset(new UserSparseModel(&t));
+        userMixedA.reset(new UserMixedA(&t));
+        userMixedB.reset(new UserMixedB(&t));
+        if (route != RT_TABLE) return;
         // the converting constructors: user-defined -> dense -> sparse
         denseFromUser.reset(new DenseM(user));
         // SparseModel(const M&) re-validates the rows AFTER dropping sub-threshold entries and may reject
@@ -245,7 +426,9 @@ struct Models {
 static void emitUpd(const Models & M, const AI::Vector & b, size_t a, bool exact, bool conv = false) {
     const Tables & t = M.t;
     if (conv && !M.sparseFromDense) conv = false;
-    Line l; l << "C05" << (conv ? "updc" : "upd") << exact << t.S << t.O << "|";
+    const bool withSosa = t.S <= 12;
+    const SparseM & spm = conv ? *M.sparseFromDense : *M.sparse;
+    Line l; l << "C05" << "upd" << (M.route != RT_TABLE ? "raw" : conv ? "conv" : "tab") << exact << withSosa << t.S << t.O << "|";
     for (size_t s = 0; s < t.S; ++s) for (size_t s1 = 0; s1 < t.S; ++s1) l << t.T[s][a][s1];
     l << "|";
     for (size_t s1 = 0; s1 < t.S; ++s1) for (size_t o = 0; o < t.O; ++o) l << t.Ob[s1][a][o];
@@ -253,17 +436,100 @@ static void emitUpd(const Models & M, const AI::Vector & b, size_t a, bool exact
     for (size_t s = 0; s < t.S; ++s) for (size_t s1 = 0; s1 < t.S; ++s1) l << t.R[s][a][s1];
     l << "|";
     putVec(l, b);
-    l << "|" << "dense";   emitBlock(l, conv ? *M.denseFromUser : *M.dense, "dense", t, b, a);
-    l << "|" << "sparse";  emitBlock(l, conv ? *M.sparseFromDense : *M.sparse, "sparse", t, b, a);
-    l << "|" << "generic"; emitBlock(l, M.user, "generic", t, b, a);
-    l << "|" << "usereigen"; emitBlock(l, *M.userEigen, "usereigen", t, b, a);
+    l << "|" << "dense";   emitBlock(l, conv ? *M.denseFromUser : *M.dense, "dense", t, b, a, withSosa);
+    l << "|" << "sparse";  emitBlock(l, spm, "sparse", t, b, a, withSosa);
+    l << "|" << "generic"; emitBlock(l, M.user, "generic", t, b, a, withSosa);
+    l << "|" << "usereigen";
+    if (M.eigenVariant == 1) emitBlock(l, *M.userMixedA, "usereigen", t, b, a, withSosa);
+    else if (M.eigenVariant == 2) emitBlock(l, *M.userMixedB, "usereigen", t, b, a, withSosa);
+    else emitBlock(l, *M.userEigen, "usereigen", t, b, a, withSosa);
+    l << "|" << "usersparse"; emitBlock(l, *M.userSparse, "usersparse", t, b, a, withSosa);
+    // the library's own P(o | b, a) (note the argument order: belief, observation, action)
+    l << "|" << "pob";
+    for (size_t o = 0; o < t.O; ++o) l << spm.getObservationProbability(b, o, a);
     l.emit();
+}
+
+static void putTables(Line & l, const Tables & t) {
+    for (size_t a = 0; a < t.A; ++a) for (size_t s = 0; s < t.S; ++s) for (size_t s1 = 0; s1 < t.S; ++s1) l << t.T[s][a][s1];
+    l << "|";
+    for (size_t a = 0; a < t.A; ++a) for (size_t s1 = 0; s1 < t.S; ++s1) for (size_t o = 0; o < t.O; ++o) l << t.Ob[s1][a][o];
+}
+
+// what a constructed model answers when asked for its tables, through every getter the belief helpers read
+template <class M>
+static void emitTab(const M & m, const char * cls, const char * route, const Tables & t) {
+    Line l; l << "C05" << "tab" << cls << route << t.S << t.A << t.O << "|";
+    putTables(l, t);
+    l << "|";
+    for (size_t a = 0; a < t.A; ++a) for (size_t s = 0; s < t.S; ++s) for (size_t s1 = 0; s1 < t.S; ++s1) l << m.getTransitionProbability(s, a, s1);
+    l << "|";
+    for (size_t a = 0; a < t.A; ++a) for (size_t s = 0; s < t.S; ++s) for (size_t s1 = 0; s1 < t.S; ++s1) l << (double)m.getTransitionFunction(a).coeff(s, s1);
+    l << "|";
+    for (size_t a = 0; a < t.A; ++a) for (size_t s1 = 0; s1 < t.S; ++s1) for (size_t o = 0; o < t.O; ++o) l << m.getObservationProbability(s1, a, o);
+    l << "|";
+    for (size_t a = 0; a < t.A; ++a) for (size_t s1 = 0; s1 < t.S; ++s1) for (size_t o = 0; o < t.O; ++o) l << (double)m.getObservationFunction(a).coeff(s1, o);
+    l.emit();
+}
+static void emitTabs(const Models & M) {
+    const char * r = M.route == RT_TABLE ? "tab" : "raw";
+    emitTab(*M.dense, "dense", r, M.t); emitTab(*M.sparse, "sparse", r, M.t);
+    if (M.denseFromUser) emitTab(*M.denseFromUser, "dense", "conv", M.t);
+    if (M.sparseFromDense) emitTab(*M.sparseFromDense, "sparse", "conv", M.t);
+}
+
+// does the table constructor accept these tables?  (std::invalid_argument = rejected; anything else propagates)
+template <class M>
+static bool emitAccept(const char * cls, const Tables & t);
+
+// the same question for the Eigen-matrix setters (validated with isProbability(const Matrix3D &) / (const SparseMatrix3D &))
+static void emitAcceptSetters(const Tables & t, int zeros, bool compress) {
+    bool okD = true, okS = true;
+    try { DenseM d(t.O, t.S, t.A, t.discount); d.setTransitionFunction(denseT(t)); d.setObservationFunction(denseOb(t)); }
+    catch (const std::invalid_argument &) { okD = false; }
+    try { SparseM d(t.O, t.S, t.A, t.discount); d.setTransitionFunction(toSparse3(denseT(t), zeros, compress)); d.setObservationFunction(toSparse3(denseOb(t), zeros, compress)); }
+    catch (const std::invalid_argument &) { okS = false; }
+    { Line l; l << "C05" << "accept" << "denseM" << t.S << t.A << t.O << "|"; putTables(l, t); l << "|" << okD; l.emit(); }
+#ifdef C05_NO_SPARSE_SIGN
+    const char * spCls = "sparseM0";   // finding C05-2 (negative entries accepted by the sparse Eigen-matrix setters) not judged
+#else
+    const char * spCls = "sparseM";
+#endif
+    { Line l; l << "C05" << "accept" << spCls << t.S << t.A << t.O << "|"; putTables(l, t); l << "|" << okS; l.emit(); }
+    std::printf("#stat denseM_setters_%s 1\n#stat sparseM_setters_%s 1\n", okD ? "accepted" : "rejected", okS ? "accepted" : "rejected");
+}
+
+// … and for the converting constructors Model(UserModel) and SparseModel(that Model)
+static void emitAcceptConv(const Tables & t) {
+    UserModel u; u.t = &t;
+    std::unique_ptr<DenseM> d;
+    try { d.reset(new DenseM(u)); } catch (const std::invalid_argument &) {}
+    { Line l; l << "C05" << "accept" << "denseC" << t.S << t.A << t.O << "|"; putTables(l, t); l << "|" << (bool)d; l.emit(); }
+    std::printf("#stat denseC_conv_%s 1\n", d ? "accepted" : "rejected");
+    if (!d) return;
+    bool okS = true;
+    try { SparseM sp(*d); } catch (const std::invalid_argument &) { okS = false; }
+    { Line l; l << "C05" << "accept" << "sparseC" << t.S << t.A << t.O << "|"; putTables(l, t); l << "|" << okS; l.emit(); }
+    std::printf("#stat sparseC_conv_%s 1\n", okS ? "accepted" : "rejected");
+}
+
+template <class M>
+static bool emitAccept(const char * cls, const Tables & t) {
+    bool ok = true;
+    try { M m(t.O, t.Ob, t.S, t.A, t.T, t.R, t.discount); } catch (const std::invalid_argument &) { ok = false; }
+    Line l; l << "C05" << "accept" << cls << t.S << t.A << t.O << "|";
+    putTables(l, t);
+    l << "|" << ok;
+    l.emit();
+    std::printf("#stat %s_ctor_%s 1\n", cls, ok ? "accepted" : "rejected");
+    return ok;
 }
 
 template <class M>
 static void emitHist(const M & m, const char * rep, const Tables & t, const AI::Vector & b0, Rng & rng, size_t n, bool exact) {
     std::vector<size_t> as, os;
     std::vector<AI::Vector> alphas, bels;
+    std::vector<double> pobs;      // the model's own P(o_t | b_{t-1}, a_t), where it offers one (SparseModel)
     AI::Vector alpha = b0, bel = b0;
     for (size_t k = 0; k < n; ++k) {
         size_t a = rng.below(t.A);
@@ -273,6 +539,7 @@ static void emitHist(const M & m, const char * rep, const Tables & t, const AI::
         if (pos.empty()) break;
         size_t o = rng.pick(pos);
         alpha = PO::updateBeliefUnnormalized(m, alpha, a, o);
+        if constexpr (requires { m.getObservationProbability(bel, o, a); }) pobs.push_back(m.getObservationProbability(bel, o, a));
         bel = PO::updateBelief(m, bel, a, o);
         as.push_back(a); os.push_back(o); alphas.push_back(alpha); bels.push_back(bel);
     }
@@ -286,6 +553,36 @@ static void emitHist(const M & m, const char * rep, const Tables & t, const AI::
     for (size_t k = 0; k < as.size(); ++k) l << as[k] << os[k];
     l << "|";
     for (size_t k = 0; k < as.size(); ++k) { putVec(l, alphas[k]); putVec(l, bels[k]); }
+    l << "|" << (size_t)pobs.size();
+    for (double p : pobs) l << p;
+    l.emit();
+}
+
+// the model simulates (sampleSOR), the filter follows (updateBelief): the true state must never get probability zero
+template <class M>
+static void emitTraj(const M & m, const char * rep, const Tables & t, const AI::Vector & b0, Rng & rng, size_t n) {
+    std::vector<size_t> sup;
+    for (size_t s = 0; s < t.S; ++s) if (b0[s] > 0.0) sup.push_back(s);
+    size_t s = rng.pick(sup);
+    const size_t s0 = s;
+    std::vector<size_t> as, s1s, os; std::vector<AI::Vector> bels;
+    AI::Vector bel = b0;
+    for (size_t k = 0; k < n; ++k) {
+        const size_t a = rng.below(t.A);
+        const auto [s1, o, r] = m.sampleSOR(s, a); (void)r;
+        bel = PO::updateBelief(m, bel, a, o);
+        as.push_back(a); s1s.push_back(s1); os.push_back(o); bels.push_back(bel);
+        s = s1;
+        bool fin = true; for (long i = 0; i < bel.size(); ++i) if (!std::isfinite(bel[i])) fin = false;
+        if (!fin) break;       // reported; nothing sensible to feed into the next step
+    }
+    Line l; l << "C05" << "traj" << rep << t.S << t.A << t.O << "|";
+    putTables(l, t);
+    l << "|"; putVec(l, b0);
+    l << "|" << s0 << (size_t)as.size();
+    for (size_t k = 0; k < as.size(); ++k) l << as[k] << s1s[k] << os[k];
+    l << "|";
+    for (auto & b : bels) putVec(l, b);
     l.emit();
 }
 
@@ -360,7 +657,7 @@ static Tables fixedTiger() {
     return t;
 }
 
-static const long kFixed = 5;
+static const long kFixed = 7;
 
 long verif::verif_ncases(const std::string & tier) {
     return kFixed + (tier == "thorough" ? 6000 : 260);
@@ -389,13 +686,77 @@ static void runFixed(long idx) {
         { AI::Vector b(2); b << 0.5, 0.5; emitUpd(M, b, 0, false); }
         return;
     }
+    if (idx == 5) {
+        // the other construction routes on the asymmetric S=3 models: NO_CHECK constructors (sparse matrices with every zero
+        // stored explicitly, uncompressed), default constructor + Eigen-matrix setters, and the default-constructed model itself
+        for (int which = 0; which < 2; ++which) {
+            const Tables t = which ? fixedAsym() : fixedCycle();
+            for (Route rt : {RT_NOCHECK, RT_SETTERS}) for (int z : {0, 2}) {
+                Models M(t, rt, z, z == 0);
+                emitTabs(M);
+                AI::Vector b(3); b << 0.125, 0.625, 0.25;
+                for (size_t a = 0; a < t.A; ++a) emitUpd(M, b, a, true);
+                Rng rng(777); AI::Vector b0(3); b0 << 0.5, 0.25, 0.25;
+                emitHist(*M.sparse, "sparseraw", M.t, b0, rng, 3, true);
+            }
+        }
+        Models D(defaultTables(3, 2, 3), RT_DEFAULT);
+        emitTabs(D);
+        AI::Vector b(3); b << 0.125, 0.625, 0.25;
+        for (size_t a = 0; a < 2; ++a) emitUpd(D, b, a, true);
+        return;
+    }
+    if (idx == 6) {
+        // what the table constructors accept: row sums 1 + 2^-20 (inside the tolerance 1e-6) and 1 + 2^-19 (outside), a slightly
+        // negative entry balanced so that the row still sums to one, and tiny successors whose total mass is inside / outside
+        // the tolerance once the sparse container has dropped them
+        auto base = [] { Tables t = fixedAsym(); return t; };
+        { Tables t = base(); t.T[0][0][0] += 0x1p-20; emitAccept<DenseM>("dense", t); emitAccept<SparseM>("sparse", t); emitAcceptSetters(t, 2, false); emitAcceptConv(t); }
+        { Tables t = base(); t.T[0][0][0] += 0x1p-19; emitAccept<DenseM>("dense", t); emitAccept<SparseM>("sparse", t); emitAcceptSetters(t, 2, false); emitAcceptConv(t); }
+        { Tables t = base(); t.Ob[1][0][0] = -0x1p-21; t.Ob[1][0][1] = 1.0 + 0x1p-21; emitAccept<DenseM>("dense", t); emitAccept<SparseM>("sparse", t); emitAcceptSetters(t, 2, false); emitAcceptConv(t); }
+        { Tables t = base(); t.T[1][0][0] = -0.25; t.T[1][0][1] = 0.5; emitAccept<DenseM>("dense", t); emitAccept<SparseM>("sparse", t); emitAcceptSetters(t, 2, false); emitAcceptConv(t); }
+        {   // an entry just above the storage threshold, compensated so that dropping it would go unnoticed by a row-sum test
+            Tables t = base();
+            t.Ob[0][0][0] = 0x1p-19; t.Ob[0][0][1] = 1.0 - 0x1p-19 + 0x1p-20;
+            t.T[2][0][1] = 0x1p-19; t.T[2][0][2] = 0.875 - 0x1p-19 + 0x1p-20;
+            emitAcceptConv(t);
+            if (emitAccept<DenseM>("dense", t) && emitAccept<SparseM>("sparse", t)) {
+                Models M(t); emitTabs(M);
+                AI::Vector b(3); b << 0.125, 0.625, 0.25; emitUpd(M, b, 0, false); emitUpd(M, b, 0, false, true);
+            }
+        }
+        {   // WITNESS (C05-2): isProbability(const SparseMatrix3D &) has no sign test, so the Eigen-matrix setters of a SparseModel take
+            // an observation "probability" of -2^-22; updateBelief on the accepted object, belief (1/2, 1/2), observation 0
+            // (probability 1/2 - 2^-23 > 0) returns a negative entry.  Lean: sparse_setters_unsigned_counterexample.
+            Tables t = defaultTables(2, 1, 2);
+            t.Ob[0][0][0] = -0x1p-22; t.Ob[0][0][1] = 1.0 + 0x1p-22;
+            emitAcceptSetters(t, 0, true);
+            SparseM sm(2, 2, 1, 0.5);
+            bool acc = true; try { sm.setObservationFunction(toSparse3(denseOb(t), 0, true)); } catch (const std::invalid_argument &) { acc = false; }
+            double neg = 0.0;
+            if (acc) { AI::Vector b(2); b << 0.5, 0.5; neg = PO::updateBelief(sm, b, 0, 0)[0]; }
+            std::printf("#stat observed_sparse_matrix_setter_accepts_negative_entry %d\n#stat observed_negative_posterior_entry %d\n", acc ? 1 : 0, neg < 0.0 ? 1 : 0);
+        }
+        for (int cnt : {2, 3, 7}) {
+            Tables t = defaultTables(8, 1, 2);
+            for (int j = 1; j <= cnt; ++j) { t.T[0][0][j] = 0x1p-21; t.T[0][0][0] -= 0x1p-21; }
+            emitAccept<DenseM>("dense", t);
+            if (emitAccept<SparseM>("sparse", t)) { Models M(t); emitTabs(M); AI::Vector b(8); b.setZero(); b[0] = 0.5; b[3] = 0.5; emitUpd(M, b, 0, false); }
+        }
+        return;
+    }
     Tables t = idx == 0 ? fixedCycle() : idx == 1 ? fixedAsym() : fixedTiger();
     Models M(t);
+    emitTabs(M);
     // every corner, the uniform-ish interior and a face
     for (size_t a = 0; a < t.A; ++a) {
         for (size_t c = 0; c < t.S; ++c) { AI::Vector b(t.S); b.setZero(); b[c] = 1.0; emitUpd(M, b, a, true); }
         { AI::Vector b(t.S); b.setZero(); b[0] = 0.5; b[t.S - 1] += 0.5; emitUpd(M, b, a, true); }
-        if (t.S == 3) { AI::Vector b(3); b << 0.125, 0.625, 0.25; emitUpd(M, b, a, true); emitUpd(M, b, a, true, true); }
+        if (t.S == 3) {
+            AI::Vector b(3); b << 0.125, 0.625, 0.25; emitUpd(M, b, a, true); emitUpd(M, b, a, true, true);
+            for (int v : {1, 2}) { M.eigenVariant = v; emitUpd(M, b, a, true); }
+            M.eigenVariant = 0;
+        }
     }
     // the helpers must tolerate a null output pointer (documented "basic nullptr check")
     {
@@ -414,14 +775,17 @@ static void runFixed(long idx) {
     emitHist(*M.sparse, "sparse", t, b0, rng, 4, true);
     emitHist(M.user, "generic", t, b0, rng, 4, true);
     emitHist(*M.userEigen, "usereigen", t, b0, rng, 4, true);
+    { AI::Vector bu = AI::Vector::Constant(t.S, 1.0 / (double)t.S); if (t.S == 3) bu << 0.5, 0.25, 0.25;
+      emitTraj(*M.dense, "dense", t, b0, rng, 8); emitTraj(*M.sparse, "sparse", t, bu, rng, 8); }
 }
 
 static void verif_case_inner(Rng & rng, long idx, const std::string & tier) {
+    AI::Seeder::setRootSeed((unsigned)(rng.next() & 0x7fffffffu));     // the models' own engines (sampleSOR) are seeded from here
     if (idx < kFixed) { runFixed(idx); return; }
     const bool thorough = tier == "thorough";
     // stream: 70% dyadic (bit-exact), 20% ugly (non-dyadic, tolerance compare), 10% tiny (sub-threshold entries)
     uint64_t r = rng.below(10);
-    Stream st = r < 7 ? ST_DYADIC : r < 9 ? ST_UGLY : ST_TINY;
+    Stream st = r < 7 ? ST_DYADIC : r < 9 ? ST_UGLY : ST_TINY;   // (ST_NEAR is chosen below)
     size_t S = (size_t)rng.range(1, thorough ? 8 : 6);
     if (rng.coin(3, 4) && S < 3) S = (size_t)rng.range(3, 6);      // mostly S >= 3
     size_t A = (size_t)rng.range(1, 3);
@@ -430,15 +794,39 @@ static void verif_case_inner(Rng & rng, long idx, const std::string & tier) {
         S = (size_t)rng.range(9, thorough ? 24 : 16); A = (size_t)rng.range(1, 2); O = (size_t)rng.range(2, 3);
         std::printf("#stat large_S 1\n");
     }
-    Models M(makeTables(rng, S, A, O, st));
-    const bool exact = st != ST_UGLY;
-    std::printf("#stat stream_%s 1\n#stat S_%zu 1\n#stat O_%zu 1\n", st == ST_DYADIC ? "dyadic" : st == ST_UGLY ? "ugly" : "tiny", S, O);
+    // construction route: 60% table constructors (+ converting constructors), 15% NO_CHECK, 15% default + Eigen setters, 10% default model
+    const uint64_t rr = rng.below(20);
+    Route rt = rr < 12 ? RT_TABLE : rr < 15 ? RT_NOCHECK : rr < 18 ? RT_SETTERS : RT_DEFAULT;
+    if (rng.coin(1, 8)) {
+        // near-valid tables through the table constructors; now and then with many states (many tiny successors)
+        st = ST_NEAR; rt = RT_TABLE;
+        if (rng.coin(1, 4)) { S = (size_t)rng.range(16, thorough ? 96 : 28); A = 1; O = (size_t)rng.range(2, 3); }
+    }
+    Tables tt = rt == RT_DEFAULT ? defaultTables(S, A, O) : makeTables(rng, S, A, O, st == ST_NEAR ? ST_DYADIC : st);
+    if (rt == RT_DEFAULT) st = ST_DYADIC;
+    if (st == ST_NEAR) {
+        perturb(rng, tt);
+        const bool okD = emitAccept<DenseM>("dense", tt), okS = emitAccept<SparseM>("sparse", tt);
+        emitAcceptSetters(tt, (int)rng.below(3), rng.coin());
+        emitAcceptConv(tt);
+        std::printf("#stat stream_near 1\n");
+        if (!(okD && okS)) return;
+    }
+    if (st == ST_UGLY || st == ST_TINY) emitAcceptConv(tt);
+    const int zeros = (int)rng.below(3); const bool compress = rng.coin();
+    Models M(std::move(tt), rt, zeros, compress);
+    const bool exact = st != ST_UGLY && st != ST_NEAR;
+    std::printf("#stat stream_%s 1\n#stat S_%zu 1\n#stat O_%zu 1\n", st == ST_DYADIC ? "dyadic" : st == ST_UGLY ? "ugly" : st == ST_TINY ? "tiny" : "near_accepted", S, O);
+    M.eigenVariant = (int)(idx % 3);
+    std::printf("#stat usereigen_variant_%d 1\n", M.eigenVariant);
+    if (S <= 8) emitTabs(M);
     for (int k = 0; k < 3; ++k) {
-        int shape = (int)rng.below(3);
+        int shape = (int)rng.below(4);
+        if (shape == 3 && st == ST_UGLY) shape = 2;
         AI::Vector b = makeBelief(rng, S, st, shape);
         size_t a = rng.below(A);
-        std::printf("#stat belief_%s 1\n", shape == 0 ? "corner" : shape == 1 ? "face" : "interior");
-        emitUpd(M, b, a, exact, k == 2);       // the third belief goes through the converted models
+        std::printf("#stat belief_%s 1\n", shape == 0 ? "corner" : shape == 1 ? "face" : shape == 2 ? "interior" : "tiny_entries");
+        emitUpd(M, b, a, exact && !(shape == 3 && S > 1), k == 2 && rt == RT_TABLE);       // the third belief goes through the converted models
     }
     // the pointer overloads called in place, one (b, a, o) per case
     if (!thorough || idx % 3 == 0) {
@@ -451,9 +839,14 @@ static void verif_case_inner(Rng & rng, long idx, const std::string & tier) {
     size_t n = (size_t)rng.range(1, hexact ? 3 : 6);
     Rng r1 = rng, r2 = rng, r3 = rng, r4 = rng;
     emitHist(*M.dense, "dense", M.t, b0, r1, n, hexact);
-    emitHist(*M.sparse, "sparse", M.t, b0, r2, n, hexact);
+    emitHist(*M.sparse, rt == RT_TABLE ? "sparse" : "sparseraw", M.t, b0, r2, n, hexact);
     emitHist(M.user, "generic", M.t, b0, r3, n, hexact);
     emitHist(*M.userEigen, "usereigen", M.t, b0, r4, n, hexact);
+    { Rng r5 = rng; emitHist(*M.userSparse, "usersparse", M.t, b0, r5, n, hexact); }
+    // simulated trajectories (longer: nothing is compared bit for bit here)
+    { Rng r6 = rng, r7 = rng; const size_t len = (size_t)rng.range(2, 12);
+      emitTraj(*M.dense, "dense", M.t, b0, r6, len);
+      emitTraj(*M.sparse, rt == RT_TABLE ? "sparse" : "sparseraw", M.t, b0, r7, len); }
 }
 
 void verif::verif_case(Rng & rng, long idx, const std::string & tier) {
